@@ -120,6 +120,8 @@ func (fr *Frame) callWith(st *State, instr ssa.Instruction, c *ssa.CallCommon, f
 		fr.callBind = fnv.Bind
 		res = fr.applyContract(st, fc, origin, origin.Signature, full, pos, calleeName, nil)
 		fr.callBind = nil
+	} else if top := fr.topFrame(); top.fc != nil && matchAny(top.fc.Opaque, calleeName) {
+		res = fr.defaultCall(st, sig, calleeName, inRepo(callee), full)
 	} else if fr.canInline(origin) {
 		u.callsInlined[calleeName] = true
 		res = fr.inline(st, origin, full, fnv.Bind, pos)
